@@ -159,6 +159,7 @@ func workerMain(args []string) {
 	fmt.Fprintln(out, `{"ready":true}`)
 	out.Flush()
 	n := 0
+	lastHarness := ""
 	for {
 		line, err := in.ReadString('\n')
 		if err != nil {
@@ -169,10 +170,13 @@ func workerMain(args []string) {
 			fatal("bad request: %v", err)
 		}
 		n++
-		if n%200 == 0 { // keep solver memory bounded
+		// keep solver memory bounded, and never let the terms one harness defined slow down the
+		// next one (a z3 that served thousands of small paths answers a hard query much later)
+		if n%100 == 0 || req.Harness != lastHarness {
 			solver.close()
 			solver = newSolver(c.Solver, c.TimeoutMs)
 		}
+		lastHarness = req.Harness
 		res := runPath(ld, solver, &c, req)
 		b, _ := json.Marshal(res)
 		out.Write(b)
